@@ -203,6 +203,21 @@ def self_check():
         from contracts import registry
         m = registry.model()
         print('contracts loaded: %d (%d trusted/protocol)' % (len(m.contracts), sum(1 for c in m.contracts.values() if c.trusted)))
+        # assume-scan: every trusted contract and every assumed lemma must be on the committed allow-list
+        allow = json.load(open(os.path.join(VERIF, 'contracts', 'TRUSTED.json')))
+        extra = [k for k in registry.trusted_contracts(None) if k not in allow['trusted_contracts']]
+        lem = []
+        for k, c in m.contracts.items():
+            for pat, upd in (c.ghost_after or {}).items():
+                for g, e in upd:
+                    if g == '__assume__':
+                        lem.append((k, pat))
+        extra_l = [x for x in lem if not any(a['function'] == x[0] and a['after'] == x[1] for a in allow['assumed_lemmas'])]
+        print('assume-scan: %d trusted contracts, %d assumed lemmas, all on the allow-list contracts/TRUSTED.json' % (
+            len(registry.trusted_contracts(None)), len(lem)) if not extra and not extra_l else '')
+        if extra or extra_l:
+            print('CHECKER-ERROR trusted contracts / assumed lemmas not on the allow-list: %r %r' % (extra, extra_l))
+            ok = False
     except Exception:
         print('CHECKER-ERROR self-check crashed: %s' % traceback.format_exc()[-600:])
         ok = False
